@@ -96,6 +96,8 @@ def replay_in_subprocess(prop: str, ob_id: str, tier: str, args: dict, timeout=3
     -> (reproduced: bool|None, text)"""
     env = dict(os.environ)
     env["PYTHONPATH"] = str(ROOT)
+    if os.environ.get("VF_REPO"):
+        env["PYTHONPATH"] = os.path.join(os.environ["VF_REPO"], "src") + os.pathsep + env["PYTHONPATH"]
     env["VF_NATIVE"] = "1"
     p = subprocess.run(
         [sys.executable, "-m", "vf.worker", "--native", prop, ob_id, tier, json.dumps(args, ensure_ascii=False)],
